@@ -204,6 +204,25 @@ def impl(case):
                 outs.append(["ok", Q.canon_ast(Q.dump_query(c))])
             except Exception as e:  # noqa: BLE001
                 outs.append(["err", exc_name(e)])
+        # ONE environment instance that accepted the text under a laxer configuration (type checks off, default limits) and
+        # is then reconfigured: the gate is applied again, to what the configuration is now
+        def reconfigured():
+            env = jsonpath.JSONPathEnvironment(well_typed=False)
+            try:
+                env.compile(out["text"])
+            except Exception:  # noqa: BLE001
+                pass
+            env.well_typed = True
+            if case["lo"] is not None:
+                env.min_int_index = case["lo"]
+            if case["hi"] is not None:
+                env.max_int_index = case["hi"]
+            return env
+        try:
+            c = reconfigured().compile(out["text"])
+            outs.append(["ok", Q.canon_ast(Q.dump_query(c))])
+        except Exception as e:  # noqa: BLE001
+            outs.append(["err", exc_name(e)])
         out["rebound_env_same"] = all(o == out["compile"] for o in outs)
         if not out["rebound_env_same"]:
             out["rebound_env_counterexample"] = outs
